@@ -177,7 +177,7 @@ def carriesRdev : WFmt → Bool
 def rdevMax : WFmt → Int × Int
   | .ustar | .gnutar => (262143, 262143)
   | .newc => (4294967295, 4294967295)
-  | .odc => (4095, 255)      -- makedev(major, minor) must fit 18 bits
+  | .odc => (1023, 255)      -- makedev(major, minor) = major * 256 + minor must fit 18 bits
   | .bin | .pwb => (255, 255)
   | _ => (4294967295, 4294967295)
 def carriesHard : WFmt → Bool
